@@ -30,7 +30,10 @@ def _cp(s):
 
 
 def corpus():
-    cs = [{"kind": "twin", "n": 6}]
+    cs = [{"kind": "twin", "n": 6},
+          # one code occurring more than 2^16 times in a single transform string (a 16-bit counter would wrap)
+          {"kind": "long", "X": ["abcabc", "abc"], "max_vocab_size": 1, "unit": "abc", "reps": 70000},
+          {"kind": "long", "X": ["abab", "cdcd"], "max_vocab_size": 3, "unit": "-", "reps": 66000}]
     for X, k in [(["abab", "a", ""], 10), (["ab", "ab", "a"], 10), (["abababab abab", "abab"], 1),
                  (["abababab abab", "abab"], 2), (["aaaaaaa", "aaa"], 10), (["abc", "abd"], 10),
                  (["a", "b"], 10), (["abc"], 10), (["aa"], 10), (["aaa"], 1)]:
@@ -81,9 +84,40 @@ def search(rng, tier):
 
 # ------------------------------------------------------------------ implementation side (worker)
 
+def _run_long(case):
+    """one very long transform string: only summaries travel back (code counts, decode check)"""
+    import numpy as np
+    from collections import Counter as C
+    from vectorizers.mixed_gram_vectorizer import BytePairEncodingVectorizer
+    kw = dict(max_vocab_size=case["max_vocab_size"])
+    long_s = case["unit"] * case["reps"]
+    out = {}
+    try:
+        ms = BytePairEncodingVectorizer(return_type="sequences", **kw)
+        ms.fit(case["X"])
+        seq = [int(x) for x in ms.transform([long_s])[0]]
+        toks, mcc = [str(t) for t in ms.tokens_], int(ms.max_char_code_)
+        dec = "".join(chr(x) if x <= mcc else toks[x - mcc - 1] for x in seq)
+        out["lossless"] = dec == "".join(c if ord(c) <= mcc else chr(0) for c in long_s)
+        out["seq_counts"] = sorted(C(seq).items())
+        mm = BytePairEncodingVectorizer(return_type="matrix", **kw)
+        mm.fit(case["X"])
+        M = mm.transform([long_s]).tocsr()
+        cols = {int(k): int(v) for k, v in mm.column_label_dictionary_.items()}
+        inv = {v: k for k, v in cols.items()}
+        out["matrix_counts"] = sorted((inv[int(j)], float(v)) for j, v in zip(M.indices, M.data) if v != 0)
+        out["cols"] = sorted(cols)
+        out["shape"] = [int(M.shape[0]), int(M.shape[1])]
+    except Exception as e:
+        out["exc"] = f"{type(e).__name__}: {e}"
+    return out
+
+
 def run_impl(case):
     if case["kind"] == "twin":
         return {"twin": True}
+    if case["kind"] == "long":
+        return _run_long(case)
     import numpy as np, numba
     from vectorizers.mixed_gram_vectorizer import (BytePairEncodingVectorizer, contract_pair,
                                                    contract_and_count_pairs)
@@ -123,6 +157,18 @@ def run_impl(case):
         out["trt"] = [[int(x) for x in r] for r in m.transform(Xt)]
     except Exception as e:
         out["transform_exc"] = f"{type(e).__name__}: {e}"
+    # a later fit that raises (corpus without a repeated pair, see the known finding) must leave the fitted model
+    # usable: transform keeps re-encoding the training strings exactly as before
+    if "tr" in out:
+        try:
+            m.fit(["ab", "cd"])
+            out["refit_raised"] = False
+        except Exception:
+            out["refit_raised"] = True
+            try:
+                out["tr_after_failed_refit"] = [[int(x) for x in r] for r in m.transform(X)]
+            except Exception as e:
+                out["tr_after_failed_refit_exc"] = f"{type(e).__name__}: {e}"
     try:
         mt = BytePairEncodingVectorizer(return_type="tokens", **kw)
         out["ft_tokens"] = [[str(t) for t in r] for r in mt.fit_transform(X)]
@@ -156,6 +202,8 @@ def _rows(M):
 
 def model_requests(case, outs):
     o = outs["normal"]
+    if case["kind"] == "long":
+        return []                      # far beyond what the list-based model encodes in reasonable time: oracle only
     if case["kind"] == "twin":
         return [{"op": "twin.bpe_exhaustive", "n": case["n"]}]
     if case["kind"] == "kernel":
@@ -253,6 +301,18 @@ def oracle(case, outs):
     fails = []
     if case["kind"] == "twin":
         return []
+    if case["kind"] == "long":
+        if "crash" in o:
+            return [_F("bpe.crash", f"process terminated: {o['crash']}")]
+        if "exc" in o:
+            return [_F("bpe.long.raises", f"transform of a {len(case['unit']) * case['reps']}-character string raises {o['exc']}")]
+        if not o["lossless"]:
+            fails.append(_F("bpe.lossless.transform.long", f"a {len(case['unit']) * case['reps']}-character string does not decode to itself"))
+        exp = [(k, float(v)) for k, v in o["seq_counts"] if k in set(o["cols"])]
+        if [(k, v) for k, v in o["matrix_counts"]] != exp:
+            fails.append(_F("bpe.matrix-counts.transform.long", f"matrix row {o['matrix_counts']} vs code counts of the sequence {exp} "
+                                                                 f"({case['unit']!r} x {case['reps']}, max_vocab_size {case['max_vocab_size']})"))
+        return fails
     if "crash" in o:
         return [_F("bpe.crash", f"process terminated: {o['crash']}")]
     if case["kind"] == "kernel":
@@ -298,6 +358,11 @@ def oracle(case, outs):
     for s, e in zip(o["Xt_all"], o["trt"]):
         if dec(e) != clipped(s):
             fails.append(_F("bpe.lossless.transform", f"transform encoding {e} of {s!r} decodes to {dec(e)!r} (mcc={mcc})"))
+    if o.get("refit_raised"):
+        if "tr_after_failed_refit_exc" in o:
+            fails.append(_F("bpe.after-failed-refit.raises", f"transform after a fit that raised: {o['tr_after_failed_refit_exc']}"))
+        elif o.get("tr_after_failed_refit") != o["tr"]:
+            fails.append(_F("bpe.after-failed-refit.encodings", f"transform(X) after a later fit raised: {o.get('tr_after_failed_refit')} before: {o['tr']} X={X}"))
     if o["tr"] != o["ft"]:
         fails.append(_F("bpe.transform-ne-fit_transform", f"transform(X)={o['tr']} fit_transform(X)={o['ft']} X={X}"))
     for k, (t, pr) in enumerate(zip(toks, o["code_list_"])):
@@ -328,6 +393,8 @@ def nontrivial(case, outs):
     o = outs["normal"]
     if case["kind"] == "twin":
         return False
+    if case["kind"] == "long":
+        return "seq_counts" in o
     if case["kind"] == "kernel":
         a, p = case["a"], case["p"]
         return len(a) <= 1 or (len(a) >= 2 and a[-2:] == p)
@@ -341,6 +408,8 @@ def stats(case, outs):
     o = outs["normal"]
     if case["kind"] == "twin":
         return ["twin-exhaustive"]
+    if case["kind"] == "long":
+        return ["long-string", f"long.count>{max([v for _, v in o.get('seq_counts', [(0, 0)])]) // 1000}k"]
     if case["kind"] == "kernel":
         return ["kernel", f"kernel.len{min(len(case['a']), 3)}"]
     t = ["fit"]
@@ -360,7 +429,7 @@ def stats(case, outs):
 
 
 def shrink_candidates(case):
-    if case["kind"] == "twin":
+    if case["kind"] in ("twin", "long"):
         return
     if case["kind"] == "kernel":
         a = case["a"]
